@@ -322,14 +322,13 @@ fn size_class(tok_len: usize) -> String {
 
 /// issue -> accept round trip for one selector
 fn round_trip<S: SelGen>(rep: &mut Report, sel: &S, vclass: &str, ctx: &Value) -> Option<String> {
-    // domain: the selector type itself must survive JSON (serde's business, not dropshot's)
-    let own = serde_json::to_string(sel).ok();
-    let domain_ok = own.as_deref().and_then(|t| serde_json::from_str::<S>(t).ok()).is_some_and(|b| same_sel(&b, sel));
-    if !domain_ok {
-        rep.inconclusive(&format!("{} selector value does not survive plain serde_json (outside the domain)", S::NAME));
+    // domain: every generated selector is JSON-representable by construction
+    // (finite floats only, string map keys); a value serde_json cannot even
+    // write is outside the domain
+    let Ok(own) = serde_json::to_string(sel) else {
+        rep.inconclusive(&format!("{} selector value cannot be written as JSON (outside the domain)", S::NAME));
         return None;
-    }
-    let own = own.unwrap();
+    };
     let predicted = 4 * (24 + own.len()).div_ceil(3);
     let scan = Scan::default();
     let issued = match issue(sel, &scan) {
@@ -824,12 +823,12 @@ struct LiveSeen {
     what: String,
 }
 
-fn live_client(rep: &mut Report, addr: std::net::SocketAddr, seed: u64, shard: u64, cases: u64) -> Vec<LiveSeen> {
+fn live_client(rep: &mut Report, addr: std::net::SocketAddr, seed: u64, shard: u64, first: u64, cases: u64) -> Vec<LiveSeen> {
     let mut out = vec![];
     let mut conn: Option<Conn> = None;
     // a token the server issued itself (refreshed as we go)
     let mut server_token: Option<(String, String)> = None;
-    for c in 0..cases {
+    for c in first..first + cases {
         let mut rng = Rng::derive(seed, "c14-live", shard, c);
         let ctx = json!({"seed": seed, "shard": shard, "case": c, "engine": "c14-live"});
         let uid = vmon::evlog::next_uid();
@@ -1066,61 +1065,33 @@ fn live_client(rep: &mut Report, addr: std::net::SocketAddr, seed: u64, shard: u
 }
 
 pub fn run_live(seed: u64, threads: usize, cases_per_thread: u64) -> Report {
-    let mut rep = Report::new("C14", "E2-live-pagination", RULE_LIVE);
-    let api = match build_api() {
-        Ok(a) => a,
-        Err(e) => {
-            rep.inconclusive(&format!("harness API not accepted: {e}"));
-            return rep;
-        }
+    let plan = crate::live::Plan {
+        property: "C14",
+        engine: "E2-live-pagination",
+        rule: RULE_LIVE,
+        seed,
+        threads,
+        cases_per_thread,
+        body_max: 1024,
     };
-    let log = vmon::evlog::EvLog::new();
-    let ctx = vmon::srv::Ctx::new(log.clone());
-    let cfg = vmon::srv::SrvCfg { workers: 4, ..Default::default() };
-    let mut running = match vmon::srv::start(api, ctx, &cfg) {
-        Ok(r) => r,
-        Err(e) => {
-            rep.inconclusive(&format!("server start: {e}"));
-            return rep;
+    crate::live::rounds(&plan, build_api, live_client, &mut |rep, log, all: Vec<LiveSeen>| {
+        let entered: HashSet<u64> = log.snapshot().iter().filter(|e| e.kind == "H_ENTER").map(|e| e.uid).collect();
+        rep.count("responses", all.len() as u64);
+        rep.count("handler-entries", entered.len() as u64);
+        for s in &all {
+            let ran = entered.contains(&s.uid);
+            match s.handler {
+                Some(false) if ran => rep.violate(
+                    format!("C14:handler-ran-on-refused-input:{}", s.what.split('|').next().unwrap_or("")),
+                    json!({"what": s.what, "status": s.status, "uid": s.uid, "seed": seed}),
+                ),
+                Some(false) => rep.count("refused-without-handler-entry", 1),
+                Some(true) if !ran => rep.inconclusive("handler expected to run but logged nothing"),
+                _ => {}
+            }
+            if s.handler.is_none() && (400..500).contains(&s.status) && ran {
+                rep.count("4xx-after-handler-entry", 1);
+            }
         }
-    };
-    let addr = running.addr;
-    let hs: Vec<_> = (0..threads)
-        .map(|t| {
-            std::thread::Builder::new()
-                .name(format!("client{t}"))
-                .spawn(move || {
-                    let mut r = Report::new("C14", "E2-live-pagination", RULE_LIVE);
-                    let seen = live_client(&mut r, addr, seed, t as u64, cases_per_thread);
-                    (r, seen)
-                })
-                .unwrap()
-        })
-        .collect();
-    let mut all = vec![];
-    for h in hs {
-        let (r, seen) = h.join().expect("client thread panicked");
-        rep.merge(r);
-        all.extend(seen);
-    }
-    let _ = running.close();
-    let entered: HashSet<u64> = log.snapshot().iter().filter(|e| e.kind == "H_ENTER").map(|e| e.uid).collect();
-    rep.count("responses", all.len() as u64);
-    rep.count("handler-entries", entered.len() as u64);
-    for s in &all {
-        let ran = entered.contains(&s.uid);
-        match s.handler {
-            Some(false) if ran => rep.violate(
-                format!("C14:handler-ran-on-refused-input:{}", s.what.split('|').next().unwrap_or("")),
-                json!({"what": s.what, "status": s.status, "uid": s.uid, "seed": seed}),
-            ),
-            Some(true) if !ran => rep.inconclusive("handler expected to run but logged nothing"),
-            _ => {}
-        }
-        // a 4xx produced by refusal of the query must come before the handler
-        if s.handler.is_none() && (400..500).contains(&s.status) && ran {
-            rep.count("4xx-after-handler-entry", 1);
-        }
-    }
-    rep
+    })
 }
